@@ -6,6 +6,7 @@
 From Coq Require Import List ZArith Bool.
 From V Require Import Lib.Enc Lib.Utf8 Gen.Randz Model.Randz.
 From V Require Import Proofs.RandzBase32 Proofs.RandzId Proofs.RandzStr Proofs.RandzCount Proofs.RandzCase.
+From V Require Import Lib.GoSem Gen.RandzCode Proofs.RandzCode Run.C20 Run.C20Code.
 Import ListNotations.
 Local Open Scope Z_scope.
 
@@ -122,3 +123,36 @@ Print Assumptions c20_count_monotone.
 Theorem c20_model_meets_spec : forall c, case_wf c -> ok_case c (run_case c) = true.
 Proof. exact case_meets_spec. Qed.
 Print Assumptions c20_model_meets_spec.
+
+(* ---------------------------------------------------------------- the code itself (go2v translation, regenerated on every run) *)
+(* Gen/RandzCode.v is the translation of the CURRENT bodies of init() (the one that assigns decodeBase32Map), ParseBase32,
+   ID.Base32 (randz/id.go), CountGenerator.getRand (randz/count.go) and of the bit-count loop of NewStrGenerator
+   (randz/str.go) — gen/trans.go + gen/trans_ext20.go, see gen/TRANSLATOR.md.  Each generated function equals the
+   hand-written model function on which the theorems above rest:
+   - init(): run on the zero value of the [256]byte table it yields exactly the model's decode_table (fuel 300 >= 257);
+   - ParseBase32: on that table, for every byte string and every fuel above its length, (id, nil) / (-1, ErrInvalidBase32)
+     as the model's parse_base32 says Some id / None — int64 wrap-around included (parse_res: nil = 0, the sentinel = its code);
+   - ID.Base32: for every id below 2^63 — negative ones included, where code and model both panic — and every fuel >= 14
+     (13 digit iterations at most, 6 swaps), lift: None = panic;
+   - getRand: for every n >= 0 (n is a uint32 in the code) and every max, the uint32 conversion and the zero divisor included;
+   - the bits loop (`var bits int` + the loop, a fragment): for every fuel f+1 with len < 2^f it is the model's bits_loop
+     with the same fuel; with fuel 64 it is what new_sgen computes. *)
+Theorem c20_code_is_model :
+  (g_init_decodeBase32Map 300 g0_decodeBase32Map = Ret decode_table) /\
+  (forall fuel bs, Forall (fun c => 0 <= c < 256) bs -> (length bs < fuel)%nat ->
+     g_ParseBase32 fuel decode_table bs = Ret (parse_res (parse_base32 bs))) /\
+  (forall fuel f, f < 2 ^ 63 -> (14 <= fuel)%nat -> g_ID_Base32 fuel f = lift (base32 f)) /\
+  (forall n mx, 0 <= n -> g_CountGenerator_getRand n mx = lift (get_rand n mx)) /\
+  (forall f r, zlen r < 2 ^ Z.of_nat f -> g_NewStrGenerator_loop1 (S f) r = Ret (bits_loop (S f) (zlen r) 0)) /\
+  (forall r, zlen r < 2 ^ 63 -> g_NewStrGenerator_loop1 64 r = Ret (bits_loop 64 (Z.of_nat (length r)) 0)).
+Proof.
+  exact (conj code_init (conj code_ParseBase32 (conj code_Base32 (conj code_getRand (conj code_bits_loop code_bits_loop64))))).
+Qed.
+Print Assumptions c20_code_is_model.
+
+(* the case interpreter of the correspondence run, kinds 0 and 1 executed through the generated functions (Run/C20Code.v:
+   generated init(), then generated ParseBase32 / Base32), gives the output of `entry` on every case: the differential run
+   of entry 0 against the compiled package is a run of the generated code *)
+Theorem c20_entry_runs_generated_code : forall sub args, entry_code sub args = entry sub args.
+Proof. exact entry_code_is_entry. Qed.
+Print Assumptions c20_entry_runs_generated_code.
